@@ -15,6 +15,8 @@ import NemoVerif.Lemmas.Closed
 import NemoVerif.Lemmas.V1Compile
 import NemoVerif.Lemmas.Expand
 import NemoVerif.Lemmas.ExpandPath
+import NemoVerif.Lemmas.ExpandInPlace
+import NemoVerif.Lemmas.ExpandNames
 namespace NemoVerif.C12
 open NemoVerif NemoVerif.Closed NemoVerif.V1Compile NemoVerif.Expand
 
@@ -52,6 +54,21 @@ theorem closed_reachable_safe {L : Type} [DecidableEq L] (p : List (Prim L)) (hc
   refine ⟨?_, ?_, hok.1⟩
   · intro hk; rw [hk] at this; exact this
   · intro hk; rw [hk] at this; exact this
+
+/-- an unconditional `Goto` (`Prim.jump`, expression = the constant True) never falls through: the step does not depend on
+    the outcome of any condition, and on a closed program it lands right behind the (last) label it names -/
+theorem jump_unconditional {L : Type} [DecidableEq L] (p : List (Prim L)) (hc : Closed p) (h : Head L) (l : L)
+    (hp : p[h.pos]? = some (.jump l)) :
+    step p h true = step p h false ∧
+    ∃ i, lookupLabel p l = some i ∧ p[i]? = some (.label l) ∧ step p h true = .next [{ h with pos := i + 1 }] := by
+  obtain ⟨i, h1, _, h3, _⟩ := lookupLabel_of_mem p l (hc.targets _ (List.mem_of_getElem? hp) l (by simp [Prim.targets]))
+  refine ⟨by unfold step; simp [hp], i, h1, h3, ?_⟩
+  unfold step; simp [hp, h1]
+
+/-- non-vacuity: the loop template (finite fact) -/
+example : (step ([.label "b", .goto "e", .jump "b", .label "e"] : List (Prim String)) ⟨2, [], []⟩ false) = .next [⟨1, [], []⟩] ∧
+    (step ([.label "b", .goto "e", .jump "b", .label "e"] : List (Prim String)) ⟨1, [], []⟩ false) = .next [⟨2, [], []⟩] := by
+  decide
 
 /-- a jump lands right behind the label it names -/
 theorem closed_jump_lands {L : Type} [DecidableEq L] (p : List (Prim L)) (hc : Closed p) (e : Prim L) (he : e ∈ p)
@@ -91,13 +108,13 @@ example : whenElseInLoop =
   [.label "wb", .goto "we",
    .beginScope "s", .fork "cf" ["init_a"],
    .label "init_a", .catchFail (some "fail_a"), .fork "gf" ["group_a_0"],
-   .label "group_a_0", .specOp "match" false false, .goto "case_a",
-   .label "case_a", .merge "cf", .catchFail none, .endScope "s", .specOp "send" false false, .goto "when_end",
-   .label "fail_a", .waitHeads 1, .catchFail none, .goto "when_else",
-   .label "when_else", .waitHeads 1, .goto "when_else_stmt",
+   .label "group_a_0", .specOp "match" false false, .jump "case_a",
+   .label "case_a", .merge "cf", .catchFail none, .endScope "s", .specOp "send" false false, .jump "when_end",
+   .label "fail_a", .waitHeads 1, .catchFail none, .jump "when_else",
+   .label "when_else", .waitHeads 1, .jump "when_else_stmt",
    .label "when_else_stmt", .specOp "send" false false,
    .label "when_end",
-   .goto "wb", .label "we"] := rfl
+   .jump "wb", .label "we"] := rfl
 
 /-- The code as it is: the expansion of `when … else` inside `while` passes the (linear) closedness check, and yet
     the head that took the else branch reaches the BeginScope again while still holding the scope —
@@ -127,6 +144,7 @@ theorem scope_safe_partial {L : Type} [DecidableEq L] (p : List (Prim L)) (hns :
       cases c with
       | true => simp only [if_true]; cases lookupLabel p l <;> simp
       | false => simp
+    | jump l => simp only; cases lookupLabel p l <;> simp
     | fork u ls => simp only; cases lookupAll p ls <;> simp
     | abort => simp only; cases h.handlers <;> simp [jumpTo] <;> (rename_i l _; cases lookupLabel p l <;> simp)
     | brk o => cases o <;> simp [jumpTo] <;> (rename_i l; cases lookupLabel p l <;> simp)
@@ -247,6 +265,26 @@ theorem v1_undefined_goto_rejected (items : List Item) (i : Nat) (e : Elem) (n :
     rw [hn] at h1; cases h1
     exact absurd h7 (hundef k lab h5 h6)
 
+/-- Flows added at run time (`_process_start_flow`, multi-step generation): the generated body is compiled like any flow
+    and a `start_flow` element is inserted IN FRONT of the already computed offsets — all offsets are relative (absolute
+    jumps are `-1`), so the result still passes the checker's property. -/
+theorem v1_dynamic_flow_in_bounds (items : List Item) (es : List Elem) (h : dynamicFlow items = .ok es) :
+    OffsetsInBounds es ∧ Resolved es := by
+  unfold dynamicFlow at h
+  cases hc : compileFull items with
+  | error m => rw [hc] at h; cases h
+  | ok es0 =>
+    rw [hc] at h
+    cases h
+    obtain ⟨h1, h2⟩ := v1_offsets_in_bounds items es0 hc
+    exact prepend_plain_ok es0 h1 h2
+
+/-- non-vacuity: a generated body with a loop and a break (finite fact, by evaluation) -/
+example : (match dynamicFlow [.simple "UserIntent", .whileS [.ifS [.simple "break"] [], .simple "run_action"]] with
+    | .ok es => v1Closed es && es.length == 7
+    | .error _ => false) = true := by
+  decide
+
 /-- non-vacuity: a backward and a forward goto (finite fact, by evaluation) -/
 example : (match compileFull [.label "a", .goto "b", .simple "user", .label "b", .goto "a"] with
     | .ok es => es.map (·.next) == [some 1, some 2, none, some 1, some (-4)]
@@ -303,6 +341,106 @@ theorem fork_template_closed (v : Variant) (pre : Nat → String) (gens : List G
     Closed (forkTemplate v pre gens c).1 :=
   closed_of_inv _ c (forkTemplate_ok [] v pre gens hg c)
 
+/-! ### Re-compilation of the same parsed flow (phase 4) — open finding `2.x:dangling-target@recompiled-ast`
+
+  C12 speaks about every compiled flow the runtime ever executes.  The parsed flows of a `RailsConfig` are compiled once per
+  runtime created from it, and `expand_elements` writes the loop labels INTO the parsed `Break` / `Continue` elements
+  (`Models/ExpandInPlace.lean`: `expandA ip`, the label slots of the AST are state; `recompile ip ss k sl c` = the
+  `k+1`-st compilation).  Full statement one would like for the code as it is (`ip = true`) — NOT true:
+      ∀ ss, wfList ss → ∀ k sl c, Unlabelled sl → Closed (recompile true ss k sl c).1 -/
+
+/-- The code as it is: the first compilation of `while c: if d: break` is closed, the second compilation of the same
+    parsed flow is not — the `Break` keeps the `_while_end_` label of the first compilation, which the second one does
+    not define (finite witness, by evaluation; replayed on the real code by harness/corpus/C12/runtime_histories.json). -/
+theorem recompile_as_is_counterexample :
+    wfList [.whileS [.ifS [.brk] []]] = true ∧
+    closed (recompile true [.whileS [.ifS [.brk] []]] 0 [none] 0).1 = true ∧
+    closed (recompile true [.whileS [.ifS [.brk] []]] 1 [none] 0).1 = false ∧
+    (recompile true [.whileS [.ifS [.brk] []]] 1 [none] 0).1 =
+      [.label ("_while_begin_", 3), .goto ("_while_end_", 3), .goto ("if_end_label_", 5),
+       .brk (some ("_while_end_", 0)), .label ("if_end_label_", 5), .jump ("_while_begin_", 3), .label ("_while_end_", 3)] := by
+  decide
+
+/-- Both modes: the FIRST compilation of a freshly parsed flow (no label set) is the expansion `Models/Expand.lean`
+    describes, so everything proved about `expand` holds for it. -/
+theorem recompile_first_is_expand (ip : Bool) (ss : List Stmt) (sl : Slots) (c : Nat) (h : Unlabelled sl) :
+    (recompile ip ss 0 sl c).1 = (expand none ss c).1 :=
+  recompile_first ip ss sl c h
+
+/-- The repaired compiler (fixes/C12-loop-exit-label-in-place.diff: the label goes into a NEW Break / Continue element):
+    EVERY compilation of the same parsed flow — the first, the second, the `k+1`-st, from whatever value the uid counter
+    has reached — is closed, for every well-formed program of the modelled grammar. -/
+theorem recompile_closed (ss : List Stmt) (hwf : wfList ss = true) (k : Nat) (sl : Slots) (c : Nat) (h : Unlabelled sl) :
+    Closed (recompile false ss k sl c).1 :=
+  recompile_repaired_closed ss hwf k sl c h
+
+/-- non-vacuity: the witness program of the finding, third compilation, repaired mode (finite fact, by evaluation) -/
+example : wfList [.whileS [.ifS [.brk] [.cont]]] = true ∧ Unlabelled [none, none] ∧
+    closed (recompile false [.whileS [.ifS [.brk] [.cont]]] 2 [none, none] 0).1 = true ∧
+    (recompile false [.whileS [.ifS [.brk] [.cont]]] 2 [none, none] 0).1.contains (.brk (some ("_while_end_", 6))) = true := by
+  refine ⟨by decide, ?_, by decide, by decide⟩
+  intro o ho; simpa using ho
+
+/-- The repaired compiler leaves the parsed AST exactly as it found it (whatever labels the slots hold): no compilation
+    can change what another runtime, which shares the parsed elements, executes (history class `@clobbered`). -/
+theorem recompile_repaired_ast_unchanged (cb : Option (Lbl × Lbl)) (ss : List Stmt) (sl : Slots) (c : Nat)
+    (h : nslots ss ≤ sl.length) : (expandA false cb ss sl c).2.1 ++ (expandA false cb ss sl c).2.2 = sl :=
+  expandA_repaired_ast_unchanged cb ss sl c h
+
+/-- The code as it is only FILLS slots: a label that is set in the parsed AST is never changed by a later compilation
+    (`Keeps`), so the flows an earlier runtime compiled keep their targets — the defect hits the later runtime only. -/
+theorem recompile_as_is_labels_kept (cb : Option (Lbl × Lbl)) (ss : List Stmt) (sl : Slots) (c : Nat)
+    (h : nslots ss ≤ sl.length) : Keeps sl ((expandA true cb ss sl c).2.1 ++ (expandA true cb ss sl c).2.2) :=
+  expandA_as_is_labels_kept cb ss sl c h
+
+/-- non-vacuity: two exits, one slot already labelled (finite facts, by evaluation) -/
+example : nslots [.whileS [.ifS [.brk] [.cont]]] ≤ [some ("_while_end_", 0), none].length ∧
+    (expandA true none [.whileS [.ifS [.brk] [.cont]]] [some ("_while_end_", 0), none] 7).2.1 =
+      [some ("_while_end_", 0), some ("_while_begin_", 7)] := by
+  decide
+
+/-- Partial statement for the code AS IT IS, excluding exactly the finding's region (`exitFree false ss`: no `break` /
+    `continue` under a `while`, directly or through `if`): every compilation of the same parsed flow is closed. -/
+theorem recompile_as_is_closed_partial (ss : List Stmt) (hwf : wfList ss = true) (he : exitFree false ss = true)
+    (k : Nat) (sl : Slots) (c : Nat) (h : Unlabelled sl) : Closed (recompile true ss k sl c).1 :=
+  recompile_as_is_exitFree_closed ss hwf he k sl c h
+
+/-- non-vacuity: a `break` outside any loop (its label stays None) and a loop without exits (finite facts) -/
+example : wfList [.ifS [.brk] [], .whileS [.send, .awaitG [[⟨.flow, false⟩], [⟨.action, false⟩]]]] = true ∧
+    exitFree false [.ifS [.brk] [], .whileS [.send, .awaitG [[⟨.flow, false⟩], [⟨.action, false⟩]]]] = true ∧
+    exitFree false [.whileS [.ifS [.brk] []]] = false := by decide
+
+/-! ### Names of generated labels against user labels (phase 4)
+
+  `FlowConfig.element_labels` is ONE name space for the labels the compiler generates and the labels the user writes
+  (`my_label:`).  The model keeps generated labels as `(prefix, uid)`; `render` is the name.  `stems` lists the fixed
+  beginnings of all generated names.  Hypothesis on user labels, explicit and executable: `userLabelOK u` — no stem is a
+  prefix of `u` (run by the harness, through the driver, on every user label of every real program; the stems are checked
+  against every generated label of the real compiler). -/
+
+/-- every label defined by ANY expansion (any nesting, any loop context, any counter value) has a name that begins with
+    one of the reserved stems -/
+theorem expand_labels_stemmed (cb : Option (Lbl × Lbl)) (ss : List Stmt) (c : Nat) (l : Lbl)
+    (h : Prim.label l ∈ (expand cb ss c).1) : Stemmed (render l) :=
+  stemmed_render l (expand_lab cb ss c l h)
+
+/-- fresh-name discipline: a user label that respects `userLabelOK` is different from the name of every label the
+    expansion of a flow defines and from the name of every jump / fork / failure-handler / loop-exit target it emits —
+    a generated label never captures a user `goto`, a generated jump never lands on a user label. -/
+theorem expand_labels_avoid_user (ss : List Stmt) (hwf : wfList ss = true) (u : String) (hu : userLabelOK u = true) :
+    (∀ l, Prim.label l ∈ expandFlow ss → render l ≠ u) ∧
+    (∀ e ∈ expandFlow ss, ∀ l ∈ e.targets, render l ≠ u) := by
+  have key : ∀ l, Prim.label l ∈ expandFlow ss → render l ≠ u := by
+    intro l hl heq
+    exact userLabelOK_sound u hu (heq ▸ expand_labels_stemmed none ss 0 l hl)
+  exact ⟨key, fun e he l hl => key l ((expand_closed ss hwf).targets e he l hl)⟩
+
+/-- non-vacuity: ordinary user labels satisfy the discipline, a label that imitates a generated one does not
+    (finite facts, by evaluation) -/
+example : userLabelOK "lbl_0" = true ∧ userLabelOK "start_over" = true ∧ userLabelOK "_while_end_7" = false ∧
+    userLabelOK "group_label" = false := by
+  decide
+
 /-! ### Path-level safety of ALL expansions (phase 3)
 
   Full statement aimed at:
@@ -348,10 +486,10 @@ example : wfList [.ifS [.whileS [.awaitG [[⟨.flow, false⟩], [⟨.action, tru
 /-- `break` / `continue` are resolved to the labels of the innermost enclosing loop, also through `if` (finite fact) -/
 example : expandFlow [.whileS [.ifS [.brk] [.whileS [.cont]]], .brk] =
     [.label ("_while_begin_", 0), .goto ("_while_end_", 0),
-     .goto ("if_else_body_label_", 1), .brk (some ("_while_end_", 0)), .goto ("if_end_label_", 2), .label ("if_else_body_label_", 1),
-     .label ("_while_begin_", 3), .goto ("_while_end_", 3), .cont (some ("_while_begin_", 3)), .goto ("_while_begin_", 3), .label ("_while_end_", 3),
+     .goto ("if_else_body_label_", 1), .brk (some ("_while_end_", 0)), .jump ("if_end_label_", 2), .label ("if_else_body_label_", 1),
+     .label ("_while_begin_", 3), .goto ("_while_end_", 3), .cont (some ("_while_begin_", 3)), .jump ("_while_begin_", 3), .label ("_while_end_", 3),
      .label ("if_end_label_", 2),
-     .goto ("_while_begin_", 0), .label ("_while_end_", 0), .brk none] := by
+     .jump ("_while_begin_", 0), .label ("_while_end_", 0), .brk none] := by
   decide
 
 /-- non-vacuity of `wfList` and a look at the repaired `when … else` inside a loop: closed, and (finite fact) the path that
